@@ -202,6 +202,17 @@ impl<E: Pairing> VerifierKey<E> {
         proof: &EvaluationProof<E>,
         open_chal: &E::ScalarField,
     ) -> VerificationResult {
+        // The vanishing polynomial has `eval_points.len() + 1` coefficients (committed in G2) and
+        // the interpolants have `eval_points.len()` (committed in G1): with fewer powers in the
+        // key the MSMs below would silently truncate them. One row of evaluations per commitment
+        // and one evaluation per point are needed for the same reason.
+        if eval_points.len() + 1 > self.powers_of_g2.len()
+            || eval_points.len() > self.powers_of_g.len()
+            || commitments.len() != evaluations.len()
+            || evaluations.iter().any(|e| e.len() != eval_points.len())
+        {
+            return Err(VerificationError);
+        }
         // Computing the vanishing polynomial over eval_points
         let zeros = vanishing_polynomial(eval_points);
         let zeros_repr = zeros.iter().map(|x| x.into_bigint()).collect::<Vec<_>>();
